@@ -158,6 +158,7 @@ type vSeq struct{ _ int }
 
 //@ -- the response is a map holding "data" and/or a non-empty "errors" list and nothing else
 //@ func (*Root).ResolveReader
+//@   requires[schema-object] root.obj != nil
 //@   props C07
 //@   check panic {C03}
 //@   requires root != nil && root.schema != nil
